@@ -27,8 +27,8 @@ _PENDING = {
     'C01x': 'no check built yet (planned: Kani contracts on noise-placement kernels); the ring identity phase = m + e needs DFT exactness and is not decidable by contracts',
     'C02x': 'no check built yet (planned: bounded Kani harnesses on GLWE wrappers); HAL column ops are covered under C09/C08',
     'C06x': 'no check built yet (planned: Kani contracts on sampling kernels); statistical claims are not contract properties',
-    'C07': 'no check built yet (planned: Kani on NTT120 scalar conversions); FFT64 exactness is floating point and out of reach',
-    'C10': 'no check built yet (planned: Kani AVX kernel == reference kernel equivalence)',
+    'C07x': 'no check built yet (planned: Kani on NTT120 scalar conversions); FFT64 exactness is floating point and out of reach',
+    'C10x': 'no check built yet (planned: Kani AVX kernel == reference kernel equivalence)',
     'C14x': 'no check built yet (planned: bounded Kani on the clear LUT path)',
     'C19x': 'no check built yet (planned: bounded Kani on decompress mask order)',
 }
@@ -117,7 +117,7 @@ PROPS['C08'] = dict(
 PROPS['C12'] = dict(
     level='proof',
     technique='Kani contract check of the real arena allocator (take_slice_aligned / take_slice_default / scratch_available) with symbolic misalignment, buffer and take lengths; Verus obligations on scratch slices of the verified column operations',
-    level_text='Allocator: complete proof of address/length/alignment/disjointness postconditions and of the availability ledger (avail decreases by exactly len + alignment padding; no padding when len is a multiple of 64); no panic whenever the request fits; the out-of-space panic is reachable only when it does not fit (should_panic harness). Coefficient-domain in-place ops (rotate/automorphism/mul_xp_minus_one/normalize _assign): unbounded Verus chain size query -> HAL default glue (take_slice of *_tmp_bytes/8 elements) -> reference operation's scratch precondition.',
+    level_text='Allocator: complete proof of address/length/alignment/disjointness postconditions and of the availability ledger (avail decreases by exactly len + alignment padding; no padding when len is a multiple of 64); no panic whenever the request fits; the out-of-space panic is reachable only when it does not fit (should_panic harness). Coefficient-domain in-place ops (rotate/automorphism/mul_xp_minus_one/normalize _assign): unbounded Verus chain size query -> HAL default glue (take_slice of *_tmp_bytes/8 elements) -> scratch precondition of the reference operation.',
     level_note='Declared-size-suffices for DFT-family and core operations is NOT decided here (needs exact-window harnesses); for ring degrees N < 8 limb byte sizes are not multiples of 64 and padding is not budgeted by size queries (DESIGN §6-4).',
     units=[
         K('poulpy-cpu-ref', 'hal_defaults::scratch::verif_kani', ['c12_take_slice_aligned_contract', 'c12_take_slice_aligned_panics_iff_too_small',
@@ -276,6 +276,39 @@ PROPS['C06'] = dict(
     trusted_base=[],
     assumptions=['stream abstraction: every u64 drawn from ChaCha8 is an independent symbolic value'],
     remainder='empirical sigma, uniformity of the generator, determinism in (plaintext, secret, seeds) and seed separation of every key-material routine',
+)
+
+AVX_STUBS = 'lane-wise models (Intel SDM) of _mm256_srlv_epi64, _mm256_sllv_epi64, _mm256_add_epi64, _mm256_sub_epi64, _mm256_sll_epi64, _mm256_srl_epi64, _mm256_i64gather_epi64 (Kani cannot interpret these intrinsics)'
+PROPS['C10'] = dict(
+    level='other',
+    technique='Kani equivalence check: the real AVX2 kernel and the real reference kernel run on the same symbolic inputs and must produce bit-identical outputs',
+    level_text='Bounded in length (3, 5, 9 elements = SIMD body + every tail shape; ring switches 4..16), complete in element values (inside the no-overflow domain of the reference) and in lsh; radix constant per harness: add/sub/negate families, multiplication by powers of two (k in -62..20), ring switching, digit extraction and all 13 normalisation step kernels.',
+    level_note='The AVX module is mounted under cfg(kani) because the enable-avx feature cannot be built by cargo-kani; seven intrinsics are replaced by lane-wise models (trusted). znx_automorphism_avx, the FFT/NTT AVX kernels, and scheme-level pipelines are not covered.',
+    explanation=BOUNDED_EXPL,
+    units=[K('poulpy-cpu-avx', 'verif_kani', ['c10_add_family__len5', 'c10_add_family__len9', 'c10_add_family__len3', 'c10_mul_pow2__len5', 'c10_switch_ring__8_to_8',
+             'c10_switch_ring__16_to_8', 'c10_switch_ring__8_to_16', 'c10_switch_ring__4_to_16', 'c10_digit__b17_len5',
+             'c10_norm_first__b17_len5', 'c10_norm_middle__b17_len5', 'c10_norm_final__b17_len5'], cls='bounded', timeout=1500,
+             bound='slice lengths 3/5/9 (switch_ring 4..16), radix 17',
+             functions=['znx_add_avx', 'znx_add_assign_avx', 'znx_sub_avx', 'znx_sub_assign_avx', 'znx_sub_negate_assign_avx', 'znx_negate_avx', 'znx_negate_assign_avx',
+                        'znx_mul_power_of_two_avx', 'znx_mul_power_of_two_assign_avx', 'znx_mul_add_power_of_two_avx', 'znx_switch_ring_avx',
+                        'znx_extract_digit_addmul_avx', 'znx_normalize_digit_avx', 'znx_normalize_{first,middle,final}_step*_avx (13 kernels)']),
+           K('poulpy-cpu-avx', 'verif_kani', [f'c10_norm_{g}__b{b}_len5' for b in (1, 52, 62) for g in ('first', 'middle', 'final')] + ['c10_digit__b52_len5'],
+             cls='bounded', tier='thorough', timeout=2400, bound='slice length 5, radices 1, 52, 62')],
+    trusted_base=[FMT_STUB, AVX_STUBS],
+    assumptions=['comparison domain: inputs for which the reference kernel does not overflow in the debug profile (|a| <= 2^61 / 2^62)'],
+    remainder='znx_automorphism_avx, FFT/IFFT/NTT and mat-vec AVX kernels (FMA, shuffles), FFT64 vs NTT120 families, ciphertext-level bit identity, sampling stream consumption (shared backend-independent code)',
+)
+
+PROPS['C07'] = dict(
+    level='proof',
+    technique='Kani loop-free full-domain contract check of the real NTT120 scalar conversion kernels (the entry into the transform domain)',
+    level_text='Complete per coefficient for every i64 (and every mask): b_from_znx64_ref yields, for each of the four primes of the backend (Primes30), a residue congruent to x with the documented lazy range < 2^63 + Q; the masked variant equals the conversion of the masked value.',
+    level_note='Only the integer conversion into the NTT120 residue domain. Exactness of FFT64 products is a floating-point fact (Verus has no f64 theory; one svp product at N=2 did not finish in CBMC); NTT butterflies, CRT reconstruction (128-bit modular arithmetic: harnesses time out), mat-vec accumulation and convolution are undecided.',
+    units=[K('poulpy-cpu-ref', 'verif_kani::c07', ['c07_b_from_znx64_residues', 'c07_b_from_znx64_masked_residues'], cls='complete', timeout=900,
+             functions=['reference::ntt120::arithmetic::b_from_znx64_ref', 'b_from_znx64_masked_ref'])],
+    trusted_base=[],
+    assumptions=[],
+    remainder='forward/inverse transform identity, limb-wise transform-domain add/sub/copy, svp/vmp/convolution equal exact negacyclic products, c_from_znx64 / c_from_b / add_bbb / CRT round trip (harnesses written, CBMC times out on the 64/128-bit modular reductions)',
 )
 
 for _p, _r in _PENDING.items():
